@@ -74,14 +74,14 @@ let op () = match next () with
   | "B" -> let c = config () in let roots = listof (fun () -> nat_of_int (nat ())) in OpBuild (c, roots)
   | t -> failwith ("op " ^ t)
 
-(* the digest function: an injective, '_'-free interning of byte strings *)
+(* the digest function: an injective, '_'-free, fixed-length interning of byte strings *)
 let tbl : (string, int) Hashtbl.t = Hashtbl.create 1024
 let h (s : ascii list) : ascii list =
   let k = of_str s in
   let id = match Hashtbl.find_opt tbl k with
     | Some i -> i
     | None -> let i = Hashtbl.length tbl in Hashtbl.add tbl k i; i in
-  to_str (Printf.sprintf "h%x" id)
+  to_str (Printf.sprintf "%016x" id)
 
 let show_state = function
   | PAbsent -> "A" | PNoParent -> "N" | PWrongKind -> "W"
